@@ -283,10 +283,15 @@ def r1c_mt_precondition(rule, root=None):
     loop_runs = any(A.norm_cond(str(txt(A.strip(w["cond"])))) in ("todo.len()<target_count", "target_count>todo.len()") for w in A.find(m["body"], "While")) and "lettarget_count=8usize.pow((settings.depthasu32)).min((threads.thread_count()*10));" in t
     ifs = [i for i in A.find(b["body"], "If") if "build_inner_mt" in txt(i["then"])]
     guard = txt(ifs[0]["cond"]) if ifs else ""
+    if not ifs:
+        # the same dispatch as a guarded match arm / any other construct: the conditions the call sits under
+        calls_ = [c for c in A.find(b["body"], "Call") if (A.path_segs(c["func"]) or [None])[-1] == "build_inner_mt"] + [c for c in A.find(b["body"], "MethodCall") if c["method"] == "build_inner_mt"]
+        if calls_:
+            guard = "&&".join(A.enclosing_conds(b["body"], calls_[0]) or [])
     if not unwraps:
         rule.ok("build_inner_mt does not assume that every task cell has a parent slot", file=OCT, line=m["ln"])
     elif "settings.depth>0" in guard or "settings.depth>=1" in guard or "settings.depth!=0" in guard:
-        rule.ok("the pooled path is taken only for depth > 0, where the split loop creates every task cell (so its parent slot exists)", file=OCT, line=ifs[0]["ln"])
+        rule.ok("the pooled path is taken only for depth > 0, where the split loop creates every task cell (so its parent slot exists)", file=OCT, line=(ifs[0]["ln"] if ifs else b["ln"]))
     else:
         rule.bad("mesh|mt-depth0", "build_inner_mt unwraps `cell.index` of every task, but with depth 0 its split loop (while todo.len() < 8^depth.min(..)) never runs and the only task is the root cell, whose index is None: meshing at depth 0 panics with a thread pool and works without one. Guard the pooled path with depth > 0 (found `%s`)" % guard, A.where(b, ifs[0] if ifs else None))
     if not loop_runs:
